@@ -11,6 +11,8 @@ from .rules import generic as RG
 from .rules import domain as RD
 from .rules import matrixarray as RM
 from .rules import tables as RT
+from .rules import tables_sem as RTS
+
 from .rules import density as RDn
 from .rules import omega_tab as RO
 from .rules import calculate as RCa
@@ -20,6 +22,23 @@ from .rules import units as RU
 from .rules import invariance as RI
 
 PROPS = {}
+
+
+def _fb(sem, syn):
+    """deciding rule = abstract execution of the real class (rules/tables_sem.py); the shape-based rule of rules/tables.py
+    decides only when the interpreter cannot execute the (rewritten) method"""
+    def rule(ctx):
+        ctx.run_with_fallback(ctx.current_rule, sem, syn)
+    rule.__name__ = sem.__name__
+    return rule
+
+
+R14_SETITEM = _fb(RTS.rule_setitem, RT.rule_pairtable_setitem)
+R14_GETITEM = _fb(RTS.rule_getitem, RT.rule_pairtable_getitem)
+R14_ITERPAIRS = _fb(RTS.rule_iterpairs, RT.rule_iterpairs)
+R14_SETUNSET = _fb(RTS.rule_setunset_check, RT.rule_setunset_check)
+R14_APPLY = _fb(RTS.rule_apply, RT.rule_apply)
+R14_VALUETABLE = _fb(RTS.rule_valuetable, RT.rule_valuetable)
 
 
 def prop(pid, rules, explanation, not_decided, assumptions=(), trusted=('A1', 'A2', 'A4', 'A5')):
@@ -111,9 +130,9 @@ prop('C13',
 
 
 prop('C14',
-     [('R00.dyn', RG.rule_no_dynamic), ('R14.c', RT.rule_pairtable_setitem), ('R14.g', RT.rule_pairtable_getitem),
-      ('R14.i', RT.rule_iterpairs), ('R14.u', RT.rule_setunset_check), ('R14.a', RT.rule_apply),
-      ('R14.l', RT.rule_listify), ('R14.v', RT.rule_valuetable), ('R12.e', RT.rule_export)],
+     [('R00.dyn', RG.rule_no_dynamic), ('R14.c', R14_SETITEM), ('R14.g', R14_GETITEM),
+      ('R14.i', R14_ITERPAIRS), ('R14.u', R14_SETUNSET), ('R14.a', R14_APPLY),
+      ('R14.l', RT.rule_listify), ('R14.v', R14_VALUETABLE), ('R12.e', RT.rule_export)],
      'Static analysis of PairTable/ValueTable/Table: def-use and dominance queries on the parsed methods decide that '
      'each assigned cell receives a deepcopy made inside the innermost key loop (never the caller object, never one '
      'copy shared by several cells), that the mirrored cell is written exactly when the table is symmetric (guard truth '
@@ -129,7 +148,7 @@ prop('C14',
 prop('C15',
      [('R00.dyn', RG.rule_no_dynamic), ('R15.f', RDn.rule_density), ('R15.s', RDn.rule_diameter),
       ('R15.k', RDn.rule_checks), ('R15.w', RDn.rule_who_may_write), ('R13.9', RM.rule_items),
-      ('R14.m', RT.rule_pairtable_setitem), ('R14.k', RT.rule_setunset_check)],
+      ('R14.m', R14_SETITEM), ('R14.k', R14_SETUNSET)],
      'Static analysis of Density/Diameter: the setters are abstractly interpreted on an arbitrary symbolic pre-state '
      'with a symbolic type label; the inner loop over all types is case-split on (partner is the assigned type / another '
      'assigned type / unassigned) and in every case the stores must equal the specification (rho_a rho_b, rho_a or '
@@ -183,8 +202,8 @@ prop('C06',
 
 prop('C16',
      [('R00.dyn', RG.rule_no_dynamic), ('R16.x', RP2.rule_system_check), ('R16.d', RP2.rule_check_dominates),
-      ('R16.c', RP2.rule_copy_and_frame), ('R16.w', RP2.rule_wiring), ('R14.c', RT.rule_pairtable_setitem),
-      ('R14.k', RT.rule_setunset_check)],
+      ('R16.c', RP2.rule_copy_and_frame), ('R16.w', RP2.rule_wiring), ('R14.c', R14_SETITEM),
+      ('R14.k', R14_SETUNSET)],
      'Static analysis of System/PRISM construction: System.__init__ is interpreted to enumerate the tables it creates and '
      'System.check must visit each of them (and refuse a missing domain with ValueError) without writing; in '
      'createPRISM/solve an unconditional self.check() must dominate PRISM(self); PRISM.__init__ is abstractly interpreted '
@@ -201,7 +220,7 @@ prop('C01',
      [('R00.dyn', RG.rule_no_dynamic), ('R01.a', RP2.rule_cost), ('R01.f', RP2.rule_post_solve),
       ('R16.w', RP2.rule_wiring), ('R16.c', RP2.rule_copy_and_frame),
       ('R09.d', RC.rule_definition), ('R03.a', RC.rule_core), ('R09.p', RC.rule_purity), ('R09.h', RC.rule_history_values),
-      ('R14.c', RT.rule_pairtable_setitem),
+      ('R14.c', R14_SETITEM),
       ('R15.f', RDn.rule_density), ('R07.t', RD.rule_roundtrip), ('R07.m', RD.rule_matrixarray_transforms),
       ('R13.5', _r13_arith), ('R13.6', RM.rule_dot_invert), ('R13.9', RM.rule_items)],
      'Static analysis: PRISM.__init__ and PRISM.cost are abstractly interpreted end to end on a symbolic System (per-pair '
@@ -261,7 +280,7 @@ prop('C04',
      [('R00.dyn', RG.rule_no_dynamic), ('R04.a', RI.rule_swap_symmetry), ('R04.b', RI.rule_symmetric_tables),
       ('R04.c', RI.rule_label_parametricity), ('R04.e', RI.rule_potential_degree), ('R04.k', RI.rule_kT_degree),
       ('R15.f', RDn.rule_density), ('R15.s', RDn.rule_diameter), ('R13.9', RM.rule_items),
-      ('R14.m', RT.rule_pairtable_setitem), ('R13.i', RM.rule_iterpairs), ('R14.i', RT.rule_iterpairs),
+      ('R14.m', R14_SETITEM), ('R13.i', RM.rule_iterpairs), ('R14.i', R14_ITERPAIRS),
       ('R05.x', RCa.rule_chi), ('R05.l', RCa.rule_spinodal), ('R05.b2', RCa.rule_second_virial),
       ('R16.w', RP2.rule_wiring), ('R01.a', RP2.rule_cost)],
      'Static analysis of the structural part: (permutation/renaming) core/ and calculate/ never address a type by a '
